@@ -378,7 +378,7 @@ def run_cross(task, tier, seed, col):
 # ------------------------------------------------------------------------------------- deep-copied registries evolve independently
 
 BATTERY = [("convert", 1, "inch", "centimeter"), ("convert", 1, "pound", "gram"), ("root", "newton"), ("compat", "meter"), ("name", "km"), ("sysmembers", "mks"), ("group", "Textile"),
-           ("format", 3, "kilometer", "~P"), ("base", "inch"), ("ctx", 500, "nanometer", "terahertz"), ("newunit", "smoot")]
+           ("format", 3, "kilometer", "~P"), ("base", "inch"), ("ctx", 500, "nanometer", "terahertz"), ("newunit", "smoot"), ("newunit", "hexameter"), ("newunit", "metro_x")]
 
 
 def _battery(reg):
